@@ -61,12 +61,24 @@ def _free_path(rng, wt, names, st=None):
 def extra_edits(rng, wt, names, log):
     """0..2 composite edits the properties name explicitly; each is legal on the current tree."""
     for _ in range(rng.choice([0, 1, 1, 2])):
-        k = rng.choice(["rename+edit", "rename+edit", "binary", "retarget", "emptydir", "dirrename+edit", "truncate",
+        k = rng.choice(["rename+edit", "rename+edit", "binary", "retarget", "emptydir", "dirrename+edit", "dirrename+edit", "truncate",
                         "exec+edit", "newbinary"])
         try:
             _extra(rng, wt, names, k, log)
         except Exception as e:  # refused by breezy (e.g. path taken): not judged here
             log.append({"extra-refused": k, "err": type(e).__name__})
+
+
+_ids = [0]
+
+
+def _add(wt, path):
+    """wt.add with a deterministic file id (auto-generated ids embed wall-clock time and random bytes)."""
+    _ids[0] += 1
+    if wt.supports_setting_file_ids():
+        wt.add([path], ids=[("x%d-%s" % (_ids[0], "".join(c for c in path.rpartition("/")[2] if c.isalnum())[:8])).encode("utf-8")])
+    else:
+        wt.add([path])
 
 
 def _extra(rng, wt, names, k, log):
@@ -95,7 +107,7 @@ def _extra(rng, wt, names, k, log):
         gen._write(os.path.join(base, p), rng.choice(BINARY) + (b"%d" % rng.randint(0, 999)))
         if rng.random() < 0.3:
             os.chmod(os.path.join(base, p), 0o755)
-        wt.add([p])
+        _add(wt, p)
         log.append({"extra": k, "path": p})
     elif k == "retarget":
         links = _files(wt, ("symlink",))
@@ -104,7 +116,7 @@ def _extra(rng, wt, names, k, log):
             if p is None:
                 return
             os.symlink(rng.choice(TARGETS), os.path.join(base, p))
-            wt.add([p])
+            _add(wt, p)
             log.append({"extra": "newlink", "path": p})
             return
         p = rng.choice(links)
@@ -116,7 +128,7 @@ def _extra(rng, wt, names, k, log):
         if p is None:
             return
         os.mkdir(os.path.join(base, p))
-        wt.add([p])
+        _add(wt, p)
         log.append({"extra": k, "path": p})
     elif k == "dirrename+edit":
         st = snap_tree(wt)
@@ -187,6 +199,7 @@ def build(ctx, rng, fmt="2a", nrevs=8, nbranches=3, names=None, weights=None, me
 
     names = names or GitNames("quick")
     weights = weights or WEIGHTS
+    _ids[0] = 0
     root = ctx.tmp("hist")
     h = gen.Hist(root, fmt)
     p0 = os.path.join(root, "b0")
